@@ -19,6 +19,6 @@ print("mutation applied (%d site)" % k)
 P
 rc=$?
 if [ $rc -eq 0 ]; then
-  HDC_REPO="$D" /verif/check "$ID" "$@" 2>&1 | grep -v conda | grep -E "VIOLATION|sub-check|held|violated|HARNESS|KNOWN" | head -8
+  VERIF_EVIDENCE_DIR=/tmp/evidence_scratch HDC_REPO="$D" /verif/check "$ID" "$@" 2>&1 | grep -v conda | grep -E "VIOLATION|sub-check|held|violated|HARNESS|KNOWN" | head -8
 fi
 rm -rf "$D"
